@@ -1,0 +1,20 @@
+//go:build verif
+
+package dag
+
+import "context"
+
+// VerifRepairTick runs one pass of the XOR tree repair (production: once per 10s ticker tick) and returns the page that was checked.
+func VerifRepairTick(s State) uint32 {
+	st := s.(*state)
+	st.xorTreeRepair.mutex.Lock()
+	page := st.xorTreeRepair.currentPage
+	st.xorTreeRepair.mutex.Unlock()
+	st.xorTreeRepair.checkPage()
+	return page
+}
+
+// VerifLoadState (re)loads the in-memory trees from the store, as Configure does.
+func VerifLoadState(s State) {
+	s.(*state).loadState(context.Background())
+}
